@@ -1,7 +1,8 @@
 (* C07/Properties.v — property theorems only.  Model: C07/Model.v (the code after fix commits
    e89b171, 07b228c; with the known finding F-C07a, whose fix 311264d was reverted by 0819a3f). *)
 From Coq Require Import String Lia.
-From RM Require Import C06.Model C06.Proofs C06.Proofs5 C06.Driver C07.Model C07.Proofs C07.Proofs2 C07.Proofs3 C07.Proofs4.
+From RM Require Import C06.Model C06.Proofs C06.Proofs5 C06.Driver C07.Model C07.Proofs C07.Proofs2 C07.Proofs3 C07.Proofs4 C07.Text C07.Proofs5.
+From RM Require C09.Grammar.
 From RM Require C08.Model C08.Proofs.
 Open Scope Z_scope.
 
@@ -61,6 +62,20 @@ Theorem c07_frame_handover_x86 :
     end.
 Proof. intros. apply handover_x86. discriminate. Qed.
 Print Assumptions c07_frame_handover_x86.
+
+(* From text to records: the byte-level STACK WIN line recogniser of C09/Grammar.v (tag, space1, hex field
+   limits, single type / has_program characters, rest of line) and this directory's record constructor
+   build the same record, for every string field in the normal form the line parsers return ([norm_pos]).
+   C07/Text.v composes C09's parser state machine and finish with walk_frame; the correspondence run
+   executes BOTH routes (records given / text parsed by the grammar) on every case and requires equal answers. *)
+Theorem c07_text_record_agree :
+  (forall s, counts_pos (C09.Grammar.rle_norm s)) /\
+  (forall ty a sz pro epi par sav loc mx hp rest,
+     counts_pos rest ->
+     conv_frame_type (C09.Grammar.win_of_fields ty a sz pro epi par sav loc mx hp rest) =
+     stack_win_line ty a sz pro epi par sav loc mx hp (unrle rest)).
+Proof. exact (conj norm_pos text_record_agree). Qed.
+Print Assumptions c07_text_record_agree.
 
 (* the whole of SymbolFile::walk_frame (framedata > fpo > STACK CFI) *)
 Theorem c07_walk_frame_total :
